@@ -675,7 +675,7 @@ public:
 	constexpr void setbyte(unsigned byteIndex, uint8_t data) {
 		uint8_t mask = 0x1u;
 		unsigned start = byteIndex * 8;
-		unsigned end = start + 8;
+		unsigned end = (start + 8 < nbits ? start + 8 : nbits);
 		for (unsigned i = start; i < end; ++i) {
 			setbit(i, static_cast<bool>(mask & data));
 			mask <<= 1;
@@ -1446,7 +1446,7 @@ bool parse(const std::string& number, integer<nbits, BlockType, NumberType>& val
 	else if (std::regex_match(number, hex_regex)) {
 		//std::cout << "found a hexadecimal representation\n";
 		// each char is a nibble
-		int maxByteIndex = nbits / 8;
+		int maxByteIndex = (nbits + 7) / 8;
 		int byte = 0;
 		int byteIndex = 0;
 		bool odd = false;
